@@ -344,9 +344,10 @@ def run(ctx):
     jobs += [(mdir, cid, sch, False) for cid in (3, 4, 5, 6) for sch in handmade()]
     traces = harness.pmap(exec_schedule, jobs, chunk=8)
     ctx.log('api schedules executed: %d' % len(traces))
-    fuzz_jobs = [('/repo/mpf/tests/machine_files/' + d, f, ctx.seed * 100 + k)
+    repo = os.environ.get('VERIF_REPO', '/repo')
+    fuzz_jobs = [(repo + '/mpf/tests/machine_files/' + d, f, ctx.seed * 100 + k)
                  for (d, f) in REPO_MACHINES for k in range(1 if ctx.quick else 6)
-                 if os.path.exists('/repo/mpf/tests/machine_files/%s/config/%s' % (d, f))]
+                 if os.path.exists(repo + '/mpf/tests/machine_files/%s/config/%s' % (d, f))]
     fres = harness.pmap(exec_fuzz, fuzz_jobs, chunk=1, item_timeout=45)
     ctx.log('device fuzz executed: %d machines' % len(fuzz_jobs))
     ftraces = [t for r_ in fres for t in r_ if '_skip' not in t]
